@@ -1,5 +1,7 @@
 package main
 
+import "strings"
+
 func init() {
 	register(&propInfo{
 		ID:          "C16",
@@ -8,6 +10,8 @@ func init() {
 		Assumptions: []string{"A5"},
 		Run: func(c *Ctx) {
 			ruleJSONDispatch(c)
+			ruleTightGuards(c, decodeBound(c.P), func(n string) bool { return strings.Contains(n, "JSON") })
+			c.Floor("X.tightguard", 8)
 		},
 	})
 }
